@@ -322,6 +322,25 @@ Theorem C16_callback_throw_surfaces : forall idn ids rt c,
 Proof. exact callback_throw_surfaces. Qed.
 Print Assumptions C16_callback_throw_surfaces.
 
+(* named map types with methods: a live entry wins over a method of the same
+   name (reads its value, a script write updates it and Go sees the update) ... *)
+Theorem C16_entry_shadows_method : forall ideal methods len_id m k v0 v x,
+  m_get m k = Some v0 -> conv_elem ideal v = inl x ->
+  snd (nstep ideal methods len_id m (NM (MJGet k))) = o_num v0 /\
+  let m1 := fst (nstep ideal methods len_id m (NM (MJSet k v))) in
+  snd (nstep ideal methods len_id m1 (NM (MJGet k))) = o_num x /\
+  snd (nstep ideal methods len_id m1 (NM (MGGet k))) = o_num x.
+Proof. exact entry_shadows_method. Qed.
+Print Assumptions C16_entry_shadows_method.
+
+(* ... but a script write under a method name that is not yet a key is dropped *)
+Theorem C16_method_name_write_dropped_refuted :
+  exists methods m k v,
+    nrun false methods 0 m [NM (MJSet k v); NM (MGGet k)] = [o_ok; o_undef] /\
+    nrun true methods 0 m [NM (MJSet k v); NM (MGGet k)] = [o_ok; o_num 5].
+Proof. exact method_name_write_dropped_refuted. Qed.
+Print Assumptions C16_method_name_write_dropped_refuted.
+
 (* non-vacuity of the implications above *)
 Example C16_exact_hyp_met :
   src_wf (KF64, 4617315517961601024) = true /\
